@@ -119,6 +119,11 @@ func (s *dhcpSys) Apply(op string) string {
 		fmt.Sscan(a[0], &i)
 		s.p.MarkUnavailable(mustIP(s.Usable[i]))
 		s.Excluded[s.Usable[i]] = true
+		// retiring an address that is held (DHCP DECLINE of a conflicting address) ends its holder's
+		// reservation: the holder asks again and gets a different address (fix C02-F2)
+		if o := s.Owner(s.Usable[i]); o != "" {
+			s.OnRelease(o)
+		}
 		return "ok"
 	}
 	panic("unknown op " + op)
